@@ -276,7 +276,7 @@ func c17Payload(kind string, plan []sim.PlanPkt, at int, r *core.Rng) []byte {
 }
 
 func c17Stream(c *core.Ctx) {
-	nh := c.N(12, 120)
+	nh := c.N(20, 120)
 	n := 0
 	for hidx := 0; hidx < nh; hidx++ {
 		h, tables := stopHistory(c, 2000+hidx)
